@@ -178,10 +178,18 @@ def decode_hex_fields(text):
     return re.sub(r"#([0-9a-f]*)", lambda m: json.dumps(bytes.fromhex(m.group(1)).decode("utf-8", "replace")), text)
 
 
+def _big_stack():
+    import resource
+    try:
+        resource.setrlimit(resource.RLIMIT_STACK, (resource.RLIM_INFINITY, resource.RLIM_INFINITY))
+    except Exception:
+        pass
+
+
 def _run_tool(cmd, cases_path, out_path, timeout):
     try:
         p = subprocess.run(cmd + [cases_path, out_path], stdout=subprocess.PIPE, stderr=subprocess.STDOUT,
-                           timeout=timeout, env=ENV)
+                           timeout=timeout, env=ENV, preexec_fn=_big_stack)
         return p.returncode, p.stdout.decode("utf-8", "replace")
     except subprocess.TimeoutExpired:
         return 124, "timeout"
